@@ -10,6 +10,7 @@ package bls_test
 import (
 	"bytes"
 	"fmt"
+	"math/big"
 	"strings"
 	"testing"
 
@@ -114,7 +115,71 @@ func c02BlsFlagAlphabet(honest []byte, cSize int) []verifmc.Alteration {
 	return out
 }
 
-func c02BlsSingle[K bls.KeyGroup](t *testing.T, unit, name string, pkSize, sigSize int, uncompress func(sig []byte) []byte) {
+// c02BlsP is the BLS12-381 base field modulus (from the curve's specification, not from circl).
+var c02BlsP, _ = new(big.Int).SetString("1a0111ea397fe69a4b1ba7b6434bacd764774b84f38512bf6730d2a0f6b0f6241eabfffeb153ffffb9feffffffffaaab", 16)
+
+// c02BlsCoordAlts: the BLS analogue of S+L. An encoding is a sequence of 48-byte big-endian base-field slots (G1: x [,y];
+// G2: x.c1, x.c0 [, y.c1, y.c0]; the top three bits of slot 0 are flags). For the honest compressed and the honest
+// uncompressed encoding, every slot is replaced by value + k*p (k = 1, 2 and the largest k that fits the slot: 381 bits
+// for slot 0, 384 otherwise) - a non-canonical encoding of the same point - and, uncompressed only, y by -y (the other
+// root: the negated point). Names are "<input class>/<detail>".
+func c02BlsCoordAlts(comp, unc []byte) []verifmc.Alteration {
+	var out []verifmc.Alteration
+	for _, f := range []struct {
+		form string
+		enc  []byte
+	}{{"compressed", comp}, {"uncompressed", unc}} {
+		if f.enc == nil {
+			continue
+		}
+		slots := len(f.enc) / 48
+		for sl := 0; sl < slots; sl++ {
+			raw := append([]byte{}, f.enc[48*sl:48*sl+48]...)
+			var flags byte
+			bits := uint(384)
+			if sl == 0 {
+				flags = raw[0] & 0xE0
+				raw[0] &= 0x1F
+				bits = 381
+			}
+			v := new(big.Int).SetBytes(raw)
+			limit := new(big.Int).Lsh(big.NewInt(1), bits)
+			kmax := new(big.Int).Sub(limit, big.NewInt(1))
+			kmax.Sub(kmax, v).Div(kmax, c02BlsP)
+			ks := []int64{}
+			for k := int64(1); k <= 2 && k <= kmax.Int64(); k++ {
+				ks = append(ks, k)
+			}
+			if kmax.Int64() > 2 {
+				ks = append(ks, kmax.Int64())
+			}
+			for _, k := range ks {
+				w := new(big.Int).Mul(big.NewInt(k), c02BlsP)
+				w.Add(w, v)
+				b := append([]byte{}, f.enc...)
+				w.FillBytes(b[48*sl : 48*sl+48])
+				if sl == 0 {
+					b[0] |= flags
+				}
+				out = append(out, verifmc.Alteration{Name: fmt.Sprintf("%s-slot%d+kp/k%d", f.form, sl, k), Data: b})
+			}
+		}
+		if f.form == "uncompressed" {
+			b := append([]byte{}, f.enc...)
+			for sl := slots / 2; sl < slots; sl++ {
+				v := new(big.Int).SetBytes(b[48*sl : 48*sl+48])
+				if v.Sign() != 0 {
+					v.Sub(c02BlsP, v)
+				}
+				v.FillBytes(b[48*sl : 48*sl+48])
+			}
+			out = append(out, verifmc.Alteration{Name: "uncompressed-neg-y/other-root", Data: b})
+		}
+	}
+	return out
+}
+
+func c02BlsSingle[K bls.KeyGroup](t *testing.T, unit, name string, pkSize, sigSize int, uncompress, uncompressPK func(b []byte) []byte) {
 	r := verifmc.Start(t, "C02", unit)
 	defer r.Finish()
 	r.Rule("base case = (key group, IKM seed of the fixed alphabet, message verifmc.Msg(n)); a case = the honest tuple (verifies, advertised size, " +
@@ -196,6 +261,51 @@ func c02BlsSingle[K bls.KeyGroup](t *testing.T, unit, name string, pkSize, sigSi
 				r.Outcome(class[:strings.Index(class, "|")] + "->rejected")
 			}
 		})
+		// coordinate + k*p (non-canonical field elements) and the other root, on signature and public key
+		{
+			sigC := c02BlsCoordAlts(sig, uncompress(sig))
+			pkC := c02BlsCoordAlts(pkEnc, uncompressPK(pkEnc))
+			verifmc.ParallelFor(len(sigC)+len(pkC), func(i int) {
+				var a verifmc.Alteration
+				class := "sig-coord"
+				if i < len(sigC) {
+					a = sigC[i]
+				} else {
+					a, class = pkC[i-len(sigC)], "pk-coord"
+				}
+				id := base + class + ":" + a.Name
+				if !r.Want(id) {
+					return
+				}
+				ok := false
+				pn, what := verifmc.Try(func() {
+					if class == "sig-coord" {
+						ok = bls.Verify(pk, msg, a.Data)
+						return
+					}
+					k := new(bls.PublicKey[K])
+					if err := k.UnmarshalBinary(a.Data); err != nil {
+						return
+					}
+					r.Count("coord_pk_decoded", 1)
+					ok = bls.Verify(k, msg, sig)
+				})
+				r.Eval(1)
+				r.Distinct(id)
+				r.Count("alt_"+class, 1)
+				pl := map[string]interface{}{"seed": verifmc.FullHex(seeds[si]), "msg": verifmc.Hex(msg), "altered": verifmc.FullHex(a.Data), "honest_sig": verifmc.FullHex(sig), "honest_pk": verifmc.FullHex(pkEnc)}
+				switch {
+				case pn:
+					col.Add(fmt.Sprintf("C02|%s|%s|%s|panic:%s", name, class, c02Kind(a.Name), verifmc.PanicClass(what)), id, id+": panicked: "+what, pl)
+					r.Outcome(class + "->PANIC")
+				case ok:
+					col.Add(fmt.Sprintf("C02|%s|%s|%s|accepted", name, class, c02Kind(a.Name)), id, id+": the non-canonical / negated encoding verifies", pl)
+					r.Outcome(class + "->ACCEPTED")
+				default:
+					r.Outcome(class + "->rejected")
+				}
+			})
+		}
 		// two deviations that belong together: the identity as public key AND as signature (e(O, H(m)) = e(g, O) = 1 for
 		// every message, so only key validation stands between this pair and a universal forgery)
 		for _, ml := range []int{0, 33} {
@@ -238,30 +348,34 @@ func c02BlsSingle[K bls.KeyGroup](t *testing.T, unit, name string, pkSize, sigSi
 	r.Set("plan", fmt.Sprintf("seeds=%v msgLens=%v otherMsgLens=%v msgFlipLimit=%d pairs=%v", p.Seeds, p.MsgLens, p.AllMsgLens, p.MsgFlipLimit, p.Pairs))
 	if !r.Replaying() {
 		for _, c := range []string{"honest_verified", "alt_pk-other", "alt_pk-flip", "altered_pk_decoded", "alt_msg-other", "alt_msg-flip",
-			"alt_sig-flip", "alt_sig-trunc", "alt_sig-append", "alt_sig-flags", "alt_pk-flags", "alt_identity-pair"} {
+			"alt_sig-flip", "alt_sig-trunc", "alt_sig-append", "alt_sig-flags", "alt_pk-flags", "alt_identity-pair", "alt_sig-coord", "alt_pk-coord"} {
 			r.RequireCounter(c, 1)
 		}
 	}
 }
 
+func c02UncG1(b []byte) []byte {
+	var q GG.G1
+	if q.SetBytes(b) != nil {
+		return nil
+	}
+	return q.Bytes()
+}
+
+func c02UncG2(b []byte) []byte {
+	var q GG.G2
+	if q.SetBytes(b) != nil {
+		return nil
+	}
+	return q.Bytes()
+}
+
 func TestVerifC02_bls_keyG1(t *testing.T) {
-	c02BlsSingle[bls.KeyG1SigG2](t, "bls_keyG1", "BLS-KeyG1SigG2", GG.G1SizeCompressed, GG.G2SizeCompressed, func(sig []byte) []byte {
-		var q GG.G2
-		if q.SetBytes(sig) != nil {
-			return nil
-		}
-		return q.Bytes()
-	})
+	c02BlsSingle[bls.KeyG1SigG2](t, "bls_keyG1", "BLS-KeyG1SigG2", GG.G1SizeCompressed, GG.G2SizeCompressed, c02UncG2, c02UncG1)
 }
 
 func TestVerifC02_bls_keyG2(t *testing.T) {
-	c02BlsSingle[bls.KeyG2SigG1](t, "bls_keyG2", "BLS-KeyG2SigG1", GG.G2SizeCompressed, GG.G1SizeCompressed, func(sig []byte) []byte {
-		var q GG.G1
-		if q.SetBytes(sig) != nil {
-			return nil
-		}
-		return q.Bytes()
-	})
+	c02BlsSingle[bls.KeyG2SigG1](t, "bls_keyG2", "BLS-KeyG2SigG1", GG.G2SizeCompressed, GG.G1SizeCompressed, c02UncG1, c02UncG2)
 }
 
 // ---- aggregation
@@ -280,7 +394,7 @@ func c02Perms(n int) [][]int {
 	return out
 }
 
-func c02BlsAggregate[K bls.KeyGroup](r *verifmc.Run, name string, zero K, sigSize int) {
+func c02BlsAggregate[K bls.KeyGroup](r *verifmc.Run, name string, zero K, sigSize int, uncompress func(b []byte) []byte) {
 	seeds := verifmc.Seeds(32, r.Seed())
 	msgLens := []int{0, 33, 137, 1, 300} // message of signer i (distinct messages)
 	var col kit.Collector
@@ -429,6 +543,9 @@ func c02BlsAggregate[K bls.KeyGroup](r *verifmc.Run, name string, zero K, sigSiz
 			for _, a := range c02BlsFlagAlphabet(agg, sigSize) {
 				add("agg-sig-flags", a.Name, pk, msgs, a.Data)
 			}
+			for _, a := range c02BlsCoordAlts(agg, uncompress(agg)) {
+				add("agg-sig-coord", a.Name, pk, msgs, a.Data)
+			}
 			verifmc.ParallelFor(len(cases), func(ci int) {
 				c := cases[ci]
 				id := base + c.class + ":" + c.name
@@ -440,7 +557,7 @@ func c02BlsAggregate[K bls.KeyGroup](r *verifmc.Run, name string, zero K, sigSiz
 				r.Eval(1)
 				r.Distinct(id)
 				r.Count("alt_"+c.class, 1)
-				if c.class == "agg-sig-flags" {
+				if c.class == "agg-sig-flags" || c.class == "agg-sig-coord" {
 					c.class += "|" + c02Kind(c.name)
 				}
 				pl := map[string]interface{}{"group": name, "signers(seed index)": who, "alteration": c.class + ":" + c.name, "aggregate": verifmc.FullHex(c.sig), "pairs": len(c.pk), "msgs": len(c.msgs)}
@@ -504,15 +621,15 @@ func TestVerifC02_bls_aggregate(t *testing.T) {
 		"every order; refused: one pair dropped / duplicated, one message replaced by every other message, two messages exchanged, one key replaced " +
 		"by every other key, aggregate lacking / repeating one signature, a single signature as aggregate, list length mismatch, every bit flip / " +
 		"truncation / appended bytes / flag-length variant of the aggregate; non-trivial = distinct (group, n, signer set, alteration)")
-	c02BlsAggregate[bls.KeyG1SigG2](r, "BLS-KeyG1SigG2", bls.G1{}, GG.G2SizeCompressed)
-	c02BlsAggregate[bls.KeyG2SigG1](r, "BLS-KeyG2SigG1", bls.G2{}, GG.G1SizeCompressed)
+	c02BlsAggregate[bls.KeyG1SigG2](r, "BLS-KeyG1SigG2", bls.G1{}, GG.G2SizeCompressed, c02UncG2)
+	c02BlsAggregate[bls.KeyG2SigG1](r, "BLS-KeyG2SigG1", bls.G2{}, GG.G1SizeCompressed, c02UncG1)
 	r.Set("signers", "1..3")
 	if !r.Replaying() {
 		if r.Config() == "default" {
 			r.RequireCounter("aggregate_honest_verified", 2*(1+2+6))
 		}
 		for _, c := range []string{"alt_agg-drop-pair", "alt_agg-dup-pair", "alt_agg-msg-other", "alt_agg-pk-other", "alt_agg-msg-swap",
-			"alt_agg-sig-missing", "alt_agg-sig-repeated", "alt_agg-sig-single", "alt_agg-sig-flip", "alt_agg-sig-trunc", "alt_agg-sig-append", "alt_aggregate-input"} {
+			"alt_agg-sig-missing", "alt_agg-sig-repeated", "alt_agg-sig-single", "alt_agg-sig-flip", "alt_agg-sig-trunc", "alt_agg-sig-append", "alt_agg-sig-coord", "alt_aggregate-input"} {
 			r.RequireCounter(c, 2)
 		}
 	}
